@@ -294,7 +294,10 @@ def _composite_cell(kind):
         }
         which, defect = kind.split(":")
         if which in mk:
-            bad_members = {"empty": [], "dup-names": [("a", N()), ("a", P())], "dunder-name": [("a__b", N()), ("b", P())],
+            # repeated names: next to each other, apart (another component in between), and among more than three components
+            apart = [[("a", N()), ("b", P()), ("a", N(strategy="mean"))], [("a", N()), ("b", P()), ("c", N(strategy="drift")), ("a", P(degree=2))],
+                     [("b", N()), ("a", P()), ("c", N(strategy="mean")), ("a", N(strategy="drift")), ("d", P(degree=2))]][int(cx.rng.integers(0, 3))]
+            bad_members = {"empty": [], "dup-names": [("a", N()), ("a", P())], "dup-names-apart": apart, "dunder-name": [("a__b", N()), ("b", P())],
                            "name-clashes-param": [("forecasters", N()), ("b", P())], "non-forecaster": [("a", N()), ("b", LinearRegression())],
                            "not-a-list": (("a", N()), ("b", P()))}
             if defect in bad_members:
@@ -313,7 +316,7 @@ def _composite_cell(kind):
             return (lambda: f.fit(cx.y.copy(), fh=cx.fh)), (lambda: g.fit(cx.y.copy(), fh=cx.fh)), f
         # pipeline
         goodp = [("t", Detrender(P())), ("f", N())]
-        badp = {"dup-names": [("t", Detrender(P())), ("t", N())], "dunder-name": [("t__x", Detrender(P())), ("f", N())],
+        badp = {"dup-names": [("t", Detrender(P())), ("t", N())], "dup-names-apart": [("x", Detrender(P())), ("t", Detrender(P(degree=2))), ("x", N())], "dunder-name": [("t__x", Detrender(P())), ("f", N())],
                 "name-clashes-param": [("steps", Detrender(P())), ("f", N())], "non-transformer-step": [("t", LinearRegression()), ("f", N())],
                 "last-not-forecaster": [("t", Detrender(P())), ("f", Detrender(P()))], "forecaster-as-step": [("t", N()), ("f", N())]}[defect]
         f, g = TransformedTargetForecaster(badp), TransformedTargetForecaster(goodp)
@@ -448,7 +451,7 @@ _add("setting:cutoff:cutoffs:list", _setting_cell("cutoff", "cutoffs", [8, 12]))
 _add("setting:cutoff:cutoffs:empty", _setting_cell("cutoff", "cutoffs", np.array([], dtype=int)))
 _add("setting:cutoff:cutoffs:beyond-series", (lambda cx: _setting_cell("cutoff", "cutoffs", np.array([8, cx.n + 1]))(cx)))
 _add("setting:cutoff:cutoffs:test-window-beyond-series", (lambda cx: _setting_cell("cutoff", "cutoffs", np.array([8, cx.n - 2]))(cx)))
-for _d in ("ensemble:empty", "ensemble:dup-names", "ensemble:dunder-name", "ensemble:name-clashes-param", "ensemble:non-forecaster", "ensemble:not-a-list", "ensemble:unknown-aggfunc",
+for _d in ("ensemble:dup-names-apart", "multiplex:dup-names-apart", "stack:dup-names-apart", "pipeline:dup-names-apart", "ensemble:empty", "ensemble:dup-names", "ensemble:dunder-name", "ensemble:name-clashes-param", "ensemble:non-forecaster", "ensemble:not-a-list", "ensemble:unknown-aggfunc",
            "multiplex:dup-names", "multiplex:non-forecaster", "multiplex:unknown-selection", "multiplex:dunder-name", "stack:empty", "stack:dup-names",
            "stack:non-forecaster", "stack:non-regressor-meta", "stack:name-clashes-param", "pipeline:dup-names", "pipeline:dunder-name", "pipeline:name-clashes-param",
            "pipeline:non-transformer-step", "pipeline:last-not-forecaster", "pipeline:forecaster-as-step"):
